@@ -470,6 +470,11 @@ def _compare_op(vm, s, f, ins):
     r = _dunder_dispatch(vm, s, f, ins, name, a, b)
     if r is not None:
         return r
+    if name in ("==", "!="):
+        fast = _fast_eq(a, b, False)
+        if fast is not None:
+            f.stack.append(sym_bool(NOT(fast) if name == "!=" else fast))
+            return None
     f.stack.append(lift2(vm, s, a, b, lambda x, y: binop_atomic(vm, s, name, x, y)))
 
 
@@ -488,10 +493,51 @@ def is_atomic(a, b):
     return False
 
 
+def _fast_eq(a, b, identity):
+    """equality / identity of two Unions by indexing the alternatives (instead of the full product)"""
+    if type(a) is not Union or type(b) is not Union or len(a.alts) * len(b.alts) < 64:
+        return None
+    idx = {}
+    for g, x in a.alts:
+        t = type(x)
+        if t is Sym or (t is tuple and not is_concrete(x)):
+            return None
+        if isinstance(x, VObj) or identity and t not in (int, str, bytes, bool, float, type(None)):
+            k = ("o", id(x))
+        else:
+            try:
+                hash(x)
+            except TypeError:
+                return None
+            k = ("v", t, x)
+        idx.setdefault(k, []).append(g)
+    terms = []
+    for g, y in b.alts:
+        t = type(y)
+        if t is Sym or (t is tuple and not is_concrete(y)):
+            return None
+        if isinstance(y, VObj) or identity and t not in (int, str, bytes, bool, float, type(None)):
+            k = ("o", id(y))
+        else:
+            try:
+                hash(y)
+            except TypeError:
+                return None
+            k = ("v", t, y)
+        gs = idx.get(k)
+        if gs:
+            terms.append(AND(g, OR(*gs)))
+    return OR(*terms)
+
+
 @op("IS_OP")
 def _is_op(vm, s, f, ins):
     b = f.stack.pop()
     a = f.stack.pop()
+    fast = _fast_eq(a, b, True)
+    if fast is not None:
+        f.stack.append(sym_bool(NOT(fast) if ins.arg else fast))
+        return None
     r = lift2(vm, s, a, b, is_atomic)
     if ins.arg:
         r = sym_bool(NOT(truth(r)))
